@@ -17,6 +17,7 @@ import (
 	"runtime"
 	"sort"
 	"strings"
+	"sync"
 	"testing"
 	"time"
 
@@ -38,7 +39,7 @@ type c18Case struct {
 	Cut      int   `json:"short_read_at"` // a read never crosses this stream offset (0 = none)
 	Bound    int   `json:"bound,omitempty"`
 	Timers   int   `json:"timer_fires"`
-	Size     int   `json:"frame_size,omitempty"`                       // frame size of the (first) connection; 0 = 8
+	Size     int   `json:"frame_size,omitempty"`                   // frame size of the (first) connection; 0 = 8
 	Second   int   `json:"second_connection_frame_size,omitempty"` // >0: the camera reconnects (same process) with this frame size and sends Frames frames again
 	Choices  []int `json:"choices,omitempty"`                      // schedule (replay)
 }
@@ -183,16 +184,47 @@ func parseCPTR(path string) (frames [][]byte, err error) {
 	}
 }
 
-// fastTmp prefers a memory-backed directory for the thousands of tiny output directories.
+// fastTmp: one directory per harness process (memory-backed when possible) for the thousands of tiny output
+// directories; it is removed when the test ends, and roots left behind by harness processes that no longer
+// exist (killed runs) are removed first, so that nothing accumulates.
+var (
+	c18RootOnce sync.Once
+	c18Root     string
+)
+
 func fastTmp() string {
-	if st, err := os.Stat("/dev/shm"); err == nil && st.IsDir() {
-		if f, err := os.CreateTemp("/dev/shm", "probe"); err == nil {
-			f.Close()
-			os.Remove(f.Name())
-			return "/dev/shm"
+	c18RootOnce.Do(func() {
+		base := os.TempDir()
+		if st, err := os.Stat("/dev/shm"); err == nil && st.IsDir() {
+			if f, err := os.CreateTemp("/dev/shm", "probe"); err == nil {
+				f.Close()
+				os.Remove(f.Name())
+				base = "/dev/shm"
+			}
 		}
+		if ents, err := os.ReadDir(base); err == nil {
+			for _, e := range ents {
+				var pid int
+				if n, _ := fmt.Sscanf(e.Name(), "c18root-%d-", &pid); n == 1 {
+					if _, err := os.Stat(fmt.Sprintf("/proc/%d", pid)); err != nil {
+						os.RemoveAll(filepath.Join(base, e.Name()))
+					}
+				}
+			}
+		}
+		d, err := os.MkdirTemp(base, fmt.Sprintf("c18root-%d-", os.Getpid()))
+		if err != nil {
+			panic(err)
+		}
+		c18Root = d
+	})
+	return c18Root
+}
+
+func c18Cleanup() {
+	if c18Root != "" {
+		os.RemoveAll(c18Root)
 	}
-	return ""
 }
 
 func imin(a, b int) int {
@@ -245,6 +277,9 @@ func c18Body(c c18Case, obs *c18Obs) func() {
 
 func c18Check(c c18Case, e *vsched.Exec, obs *c18Obs) (string, string) {
 	defer os.RemoveAll(obs.dir)
+	if obs.dir2 != "" {
+		defer os.RemoveAll(obs.dir2) // also on the early returns below
+	}
 	if e.Deadlock != "" {
 		return "C18:deadlock", "no thread can run: " + e.Deadlock
 	}
@@ -344,7 +379,9 @@ func TestVerifC18(t *testing.T) {
 			fmt.Fprintln(os.Stderr, err)
 			os.Exit(2)
 		}
-		os.Exit(ev.ReportReplay("C18", p, cj, c18Replay(cj)))
+		code := ev.ReportReplay("C18", p, cj, c18Replay(cj))
+		c18Cleanup()
+		os.Exit(code)
 	}
 	r := ev.NewRun("C18", "overlay cmd/thermal-writer TestVerifC18")
 	r.Rerun = func(cj []byte) []ev.Violation {
@@ -362,6 +399,7 @@ func TestVerifC18(t *testing.T) {
 		if code := r.Finish(); code > exit {
 			exit = code
 		}
+		c18Cleanup()
 		if exit != 0 {
 			os.Exit(exit)
 		}
@@ -475,6 +513,7 @@ func TestVerifC18(t *testing.T) {
 	r.Extra["scenarios"] = per
 	c18Describe(r, bounds[0], bounds[len(bounds)-1])
 	code := r.Finish()
+	c18Cleanup()
 	if code != 0 {
 		os.Exit(code)
 	}
